@@ -23,7 +23,7 @@ def hook_list_rule(ctx):
     operation anybody applies to it, and hooks leave it only when their drop-in tag is removed.  Shared by C07 and C13."""
     P = ctx.prog
     # priority order survives every other operation on the hook list: only order-preserving mutators may touch it
-    STABLE = {"emplace_back", "push_back", "erase", "clear", "remove_if", "remove", "erase_if", "begin", "end", "cbegin", "cend", "rbegin", "rend", "crbegin", "crend",
+    STABLE = {"operator==", "operator!=", "distance", "emplace_back", "push_back", "erase", "clear", "remove_if", "remove", "erase_if", "begin", "end", "cbegin", "cend", "rbegin", "rend", "crbegin", "crend",
               "size", "empty", "reserve", "find_if", "find", "any_of", "all_of", "none_of", "for_each", "count_if", "operator=", "stable_partition", "shrink_to_fit"}
     n_ops = 0
     for f in P.fns.values():
@@ -343,14 +343,15 @@ def run(ctx):
     # ------------------------------------------------ priority order
     fph = ctx.fn1("Oomd::Engine::Engine::firePrekillHook")
     lh = loops(fph)
-    if len(lh) != 1:
-        ctx.violation("firePrekillHook:loop", "anchor", fph.loc(), "expected one loop over the hook list")
+    sw = search_walks(fph)
+    if not ((len(lh) == 1 and not sw) or (not lh and len(sw) == 1)):
+        ctx.violation("firePrekillHook:loop", "anchor", fph.loc(), "expected one loop (or one std::find_if) over the hook list")
     else:
-        hdr = loop_header(fph, lh[0])
-        wk = loop_walk(fph, lh[0])
+        hdr = loop_header(fph, lh[0]) if lh else fph.text(sw[0]["call"])
+        wk = loop_walk(fph, lh[0]) if lh else sw[0]
         ctx.check(wk is not None and wk["dir"] == "backward" and wk["container"] == "this->prekill_hooks_in_reverse_order_",
-                  "firePrekillHook:reverse-traversal", "loop-shape", fph.loc(lh[0]["stmt"]),
-                  "the reverse-ordered list is walked from its back", "loop header is " + hdr)
+                  "firePrekillHook:reverse-traversal", "loop-shape", fph.loc(lh[0]["stmt"]) if lh else fph.loc(sw[0]["call"]),
+                  "the reverse-ordered list is walked from its back", "walk is " + hdr[:120])
         fl = Flow(P, fph, cg=ctx.cg)
         fire = fph.calls("PrekillHook::fire")
         ctx.counters["engine_fire_sites"] = len(fire)
@@ -369,8 +370,9 @@ def run(ctx):
             ctx.check(a[0] == "cgroup_ctx" and "getActionContext()" in a[1], "fire-args", "provenance", fph.loc(i),
                       "hook receives the victim and the action context", "hook receives " + str(a))
             # the hook fired is the one that was tested, and it is the current element's hook (directly or through a local alias)
-            fired = re.sub(r"(->|\.)$", "", fph.text(fph.nodes[i]["recv"]))
-            tested = [re.sub(r"(->|\.)canRunOnCgroup\(.*$", "", k) for k, p in g if "canRunOnCgroup(" in k and p is True]
+            arrow = lambda t_: re.sub(r"\(\*(\w+)\)\.", r"\1->", t_)          # (*it).x and it->x are the same expression
+            fired = arrow(re.sub(r"(->|\.)$", "", fph.text(fph.nodes[i]["recv"])))
+            tested = [arrow(re.sub(r"(->|\.)canRunOnCgroup\(.*$", "", k)) for k, p in g if "canRunOnCgroup(" in k and p is True]
 
             def of_element(t):
                 if wk is None:
@@ -444,6 +446,15 @@ def run(ctx):
     for r in returns(can):
         t = ret_text(can, r)
         g = fc.guards(r)
+        m_any = re.match(r"^std::any_of\(this->cgroup_patterns_\.c?begin\(\), this->cgroup_patterns_\.c?end\(\), lambda@\d+\)$", t)
+        if m_any:
+            # the algorithm spelling of the same loop: true iff the predicate holds for some pattern
+            lam_ = [l for l in P.lambdas_in(can)]
+            okl = len(lam_) == 1 and len(lam_[0].params) == 1 and [ret_text(lam_[0], r_) for r_ in returns(lam_[0])] == [
+                "%s.cgroup().hasDescendantWithPrefixMatching(%s)" % (can.params[0]["name"], lam_[0].params[0]["name"])]
+            ctx.check(okl, "canRun:true-iff-pattern-matches", "return_table", can.loc(r), "true iff some pattern matches (std::any_of over the patterns)",
+                      "any_of predicate is not the pattern match")
+            continue
         if t == "true":
             ctx.check(has_fact(g, True, "hasDescendantWithPrefixMatching(pattern)"), "canRun:true-iff-pattern-matches", "return_table",
                       can.loc(r), "true only on a matching pattern", "returns true without a pattern match")
